@@ -179,9 +179,10 @@ pub fn produce(tier: Tier, emit: &mut dyn FnMut(Case)) {
         }
     }
     // (E) 16-bit length sweep (values and names)
-    let maxes = max_len_atoms();
-    let n = tier.pick(3, maxes.len());
-    for a in maxes.into_iter().take(n) {
+    let mut maxes = max_len_atoms();
+    maxes.extend(len_boundary_atoms());
+    let _ = tier;
+    for a in maxes.into_iter() {
         let mut m = Msg::new(0x0101, 0, 1);
         m.groups.push(Group {
             tag: TAG_OPERATION,
